@@ -569,6 +569,31 @@ def rule_locked_take(ctx, rule, fv, expect):
                   "record taken through %s" % rty[:60],
                   "worker takes a record through `%s`, not through a MutexGuard of the shared reader" % rty[:80],
                   line_of(n))
+        # the Option the worker tests for end-of-input is the reader's answer itself, not a filtered / mapped version
+        # of it (a record turned into None stops THAT worker while the input goes on)
+        post = None
+        cur = n
+        for _ in range(6):
+            par = fv.parent.get(id(cur))
+            if par is None:
+                break
+            if par.get("k") in ("mcall", "call") and call_args(par) and call_args(par)[0] is cur:
+                last = cname(par).split("::")[-1]
+                if last in ("filter", "and_then", "take_if", "filter_map", "xor", "zip", "or", "or_else", "take"):
+                    post = par
+                    break
+                if last in ("unwrap", "expect", "map", "inspect", "as_ref", "as_mut", "clone"):
+                    cur = par
+                    continue
+                break
+            if par.get("k") in ("addr", "block") and (par.get("e") is cur or par.get("expr") is cur):
+                cur = par
+                continue
+            break
+        ctx.check(rule, key + ":unfiltered", post is None, "the taken Option is tested as the reader returned it",
+                  "the reader's answer goes through `%s` before the worker tests it: a record for which that yields None looks "
+                  "like the end of the input to this worker (it stops; with one worker everything after it is lost)"
+                  % (cname(post) if post else ""), line_of(post) if post else None)
     if n_sites < expect:
         ctx.fail(rule, "%s:take:floor" % fv.path, "expected %d lock-held take site(s) in spawned workers of %s, "
                  "found %d" % (expect, fv.path, n_sites), fv.fn["sp"])
@@ -1188,3 +1213,39 @@ def rule_spawn_count(ctx, rule, fv, who):
                   "never taken, rows stay unwritten, counts stay empty, and the run still reports success"
                   % (show(start) if start else "?", show(end) if end else "?"), line_of(loop))
     return n
+
+
+
+AUDITED_PANICS = {
+    ("composition::oligo::OligoComputer::vectorise_mmap", "assert"): "the mapped path is only entered with norm (C05.S)",
+    ("kmer::numeric_to_kmer", "panic"): "unreachable arm of a match on a two-bit value",
+    ("<ktio::seq::Sequences as std::iter::Iterator>::count", "unimplemented"): "documented: count() is not provided",
+}
+
+
+def panic_audit(ctx, rule, prefixes=None):
+    """explicit `panic!` / `assert!` / `unreachable!` / `unimplemented!` / `process::exit` sites in workspace code are the
+    audited ones: a new precondition (`assert!(k > 1)`) turns inputs the property covers into aborts"""
+    n = 0
+    bad = []
+    for fv in ctx.all_views(lambda f: prefixes is None or f["npath"].startswith(tuple(prefixes))):
+        if fv.fn.get("mac") or fv.path.startswith(("<kmertools::", "pykmertools::", "<pybindings::")):
+            continue
+        for c in fv.nodes:
+            if c.get("k") not in ("call", "mcall"):
+                continue
+            nm = cname(c)
+            if not (nm.startswith(("core::panicking", "std::rt::begin_panic", "std::rt::panic", "core::panic"))
+                    or "assert_failed" in nm or nm == "std::process::exit"):
+                continue
+            mac = (c.get("mac") or "").split(">")[-1].replace("$crate::panic::", "").replace("$crate::", "")
+            kind = "assert" if "assert" in (c.get("mac") or "") else (mac or nm.split("::")[-1])
+            n += 1
+            if (fv.path, kind) not in AUDITED_PANICS:
+                bad.append((fv.path, kind, c))
+    for fp, kind, c in bad:
+        ctx.fail(rule, "%s:explicit_panic:%s" % (fp, kind),
+                 "`%s!` in %s is not one of the audited abort sites: it makes the function reject inputs it used to handle "
+                 "(the properties quantify over every k in range, every record, every thread count)" % (kind, fp), line_of(c))
+    ctx.check(rule, "explicit_panics:audited", not bad, "%d explicit abort site(s), all audited" % n,
+              "%d unaudited explicit abort site(s)" % len(bad), None, nontrivial=False)
